@@ -24,7 +24,10 @@ RULE = ("boundary schedules first, for both RetryCertAfterInError settings: thre
         "prev_local_exit_root: crash between 'accepted by the Agglayer' and 'row stored' for a new height (last block holding a bridge), "
         "for the first certificate, for a certificate that then goes InError and is replaced, and for a replacement (start-up check "
         "refuses for ever); database lost while the latest certificate is pending / proven / in error / settled; plain restarts. "
-        "Then random walks of 20-60 "
+        "an aggchain-prover (FEP) stream - the REAL AggchainProverFlow with a scripted prover answering "
+        "EndBlock = requested / middle / first block / outside the range / error per tick: empty certificates, shortened ranges, "
+        "refusals, a certificate in error resent with the same range from its stored proof, plus a quarter as many FEP walks as PP "
+        "walks. Then random walks of 20-60 "
         "events over {block with 0-2 bridges and 0-1 claims (30% empty, block numbers may skip), epoch tick and status tick with "
         "MaxCertSize from {0,1,200,400,3100,6000}, Agglayer moves its latest certificate (biased to the natural next stage, 25% InError), "
         "move of a random certificate to a random status, next Agglayer call fails, restart (1 in 3 with the database lost), 1 tick in 12 "
@@ -50,8 +53,9 @@ ASSUMPTIONS = [
     "Inv (incl. rows without stored previous LER: C02_inerror_prev_ler_fallback); no theorem that a restart re-establishes Inv. "
     "Environment conventions: a scripted Agglayer failure does not outlive the process; while the start-up check is refused every "
     "tick is another attempt; Agglayer headers carry metadata V2 and, per case, may or may not carry prev_local_exit_root",
-    "aggchain-prover (FEP) flow: theorems *_fep_partial are proved over a model of flow_aggchain_prover.go that no correspondence run "
-    "ties to the code (prover, optimistic mode and GER queries are not driven by the harness)",
+    "aggchain-prover (FEP) flow: theorems *_fep_partial are about build_fep, which the FEP stream of the harness compares with the real "
+    "AggchainProverFlow (scripted prover; stored proof always present). Still outside: optimistic mode, a certificate in error of "
+    "another certificate type, a missing stored proof (table rebuilt from the Agglayer), maxL2BlockNumber, injected-GER proofs",
 ]
 TRUSTED_EXTRA = [
     "scripted Agglayer / L1-info-tree querier / LER querier / signer of harness/aggsender (environment of the model)",
@@ -133,8 +137,10 @@ def claim(e, pos):
         hexnum(e.get("daddr", "")), num(e["amount"]), bx(e.get("meta", "")), cbool(e.get("is_msg", False)))
 
 
-def step(s):
+def step(s, fep=False):
     k = s["k"]
+    if fep and k in ("epoch", "status"):
+        return "XTickF %s %s %s" % (cbool(k == "epoch"), num(s.get("max", 0)), num(s.get("rule", 0)))
     if k == "block":
         bs, cs = [], []
         for i, e in enumerate(s.get("evs") or []):
@@ -192,10 +198,11 @@ def coq_case(o):
         rec = so.get("recov")
         obs.append("(mkST %s %s %d %s)" % (clist([sub_obs(s, t) for s in so["subs"] or []]), rterm, so["synced"],
                                            "None" if not rec else "(Some %s)" % cbool(rec == "refused")))
-    body = "mkCase02 %s %s %d %s %s %s %s %s" % (
-        cbool(i["retry"]), cbool(i.get("agg_prev", False)), i["start_block"], ler, clist([step(s) for s in i.get("pre") or []]),
-        clist([row_obs(r, t) for r in o.get("seeds") or []]),
-        clist([step(s) for s in i["steps"]]), clist(obs))
+    fep = i.get("flow") == "fep"
+    body = "mkCase02 %s %s %s %d %s %s %s %s %s" % (
+        cbool(fep), cbool(i["retry"]), cbool(i.get("agg_prev", False)), i["start_block"], ler,
+        clist([step(s) for s in i.get("pre") or []]), clist([row_obs(r, t) for r in o.get("seeds") or []]),
+        clist([step(s, fep) for s in i["steps"]]), clist(obs))
     return "(let T := %s in %s)" % (clist([hexnum(h) for h in t.vals]), body)
 
 
@@ -204,7 +211,7 @@ def n_subs(o):
 
 
 def nontrivial_key(o):
-    return None if n_subs(o) < 2 else [o["in"]["retry"], o["in"].get("agg_prev"), o["in"]["start_block"], o["in"].get("seeds"), o["in"]["steps"]]
+    return None if n_subs(o) < 2 else [o["in"].get("flow"), o["in"]["retry"], o["in"].get("agg_prev"), o["in"]["start_block"], o["in"].get("seeds"), o["in"]["steps"]]
 
 
 def finding_key(o):
@@ -216,13 +223,16 @@ def distribution(outs):
          "scripted_failures": 0, "certificates_received": 0, "replacements_of_inerror": 0, "certificates_settled_max_per_case": 0,
          "cut_ranges": 0, "retry_true": 0, "retry_false": 0, "with_start_block": 0, "bridge_events": 0, "claim_events": 0,
          "seeded_tables": 0, "restarts_same_db": 0, "restarts_lost_db": 0, "crash_ticks": 0, "crash_ticks_with_certificate": 0,
-         "recoveries_refused": 0, "headers_with_prev_ler": 0, "loop_errors": {}, "by_tag": {}}
+         "recoveries_refused": 0, "headers_with_prev_ler": 0, "fep_flow_cases": 0, "fep_certificates": 0, "fep_empty_certificates": 0,
+         "fep_prover_shortened": 0, "fep_prover_refused_or_outside": 0, "loop_errors": {}, "by_tag": {}}
     for o in outs:
         i = o["in"]
         d["retry_true" if i["retry"] else "retry_false"] += 1
         d["with_start_block"] += 1 if i["start_block"] else 0
         d["seeded_tables"] += 1 if i.get("seeds") else 0
         d["headers_with_prev_ler"] += 1 if i.get("agg_prev") else 0
+        fep = i.get("flow") == "fep"
+        d["fep_flow_cases"] += 1 if fep else 0
         d["by_tag"][i.get("tag", "")] = d["by_tag"].get(i.get("tag", ""), 0) + 1
         heights = set()
         for s, so in zip(i["steps"], o["steps"]):
@@ -249,8 +259,14 @@ def distribution(outs):
                 d["recoveries_refused"] += 1
             if so.get("err"):
                 d["loop_errors"][so["err"].split(":")[0]] = d["loop_errors"].get(so["err"].split(":")[0], 0) + 1
+            if fep and so.get("err", "").startswith("prover"):
+                d["fep_prover_refused_or_outside"] += 1
             for sb in so.get("subs") or []:
                 d["certificates_received"] += 1
+                if fep:
+                    d["fep_certificates"] += 1
+                    d["fep_empty_certificates"] += 0 if (sb["exits"] or sb["imp"]) else 1
+                    d["fep_prover_shortened"] += 1 if s.get("rule") in (1, 2) and sb["m_from"] + sb["m_offset"] < so["synced"] else 0
                 if sb["height"] in heights:
                     d["replacements_of_inerror"] += 1
                 heights.add(sb["height"])
